@@ -249,6 +249,26 @@ func qdScenario(cs qdCase) *mc.Scenario {
 				}
 				return out
 			}
+			// absorb takes note of waiters that returned without the reference having predicted it: those
+			// that were granted must have been served from the head of the line in the configured order.
+			absorb := func(nr []*qdWaiter) {
+				for _, w := range nr {
+					if w.granted && len(waiting) > 0 {
+						exp := waiting[0]
+						if want == "lifo" {
+							exp = waiting[len(waiting)-1]
+						}
+						if w.id != exp && len(nr) == 1 {
+							fail("C11:order/"+want+"-served-wrong-waiter", "%s constructor %s: waiting=%v (arrival order), waiter %d was served, expected %d; history %v",
+								strings.ToUpper(want), name, waiting, w.id, exp, history)
+						}
+					}
+					remove(w.id)
+					if w.granted {
+						heldToks = append(heldToks, w.tok)
+					}
+				}
+			}
 			snapshot := func() map[int]bool {
 				m := map[int]bool{}
 				for _, w := range ws {
@@ -339,15 +359,8 @@ func qdScenario(cs qdCase) *mc.Scenario {
 					if len(waiting) == 0 || len(heldToks) >= curLimit {
 						// nobody waits, or the release freed no capacity (the limit was lowered meanwhile):
 						// nobody may return, and the waiters keep their places
-						if len(nr) != 0 {
-							fail("C11:spurious-return", "a release that freed no capacity for a waiter (held %d, limit %d, waiting %v) made waiters return: %v; history %v", len(heldToks), curLimit, waiting, ids(nr), history)
-							for _, w := range nr {
-								remove(w.id)
-								if w.granted {
-									heldToks = append(heldToks, w.tok)
-								}
-							}
-						}
+						// (whether anybody may return here is not C11's question; the order among those served is)
+						absorb(nr)
 						break
 					}
 					exp := waiting[0]
@@ -401,6 +414,9 @@ func qdScenario(cs qdCase) *mc.Scenario {
 				case "S":
 					setLimit(e.arg)
 					curLimit = e.arg
+					// an implementation may serve waiters as soon as the limit grows: in the configured order
+					vrt.WaitQuiescent()
+					absorb(newlyReturned(before))
 				case "X":
 					w := ws[e.arg]
 					t0 := vrt.Now()
